@@ -16,6 +16,7 @@ RULE = ("real Regression objects built with default construction arguments on ge
         "train_spatially_adaptive: normal-equation residual of the surpluses of every component grid against the reference matrices; "
         "(c) every optimize_coefficients variant (3 options, standard and spatially adaptive): coefficients sum to one. distinct = "
         "digest(generator, configuration, data digest); non-trivial = anisotropic / non-uniform grid or training with lmax>lmin")
+RULE += (" " + 'Inputs include data quantised so that scaled coordinates sit exactly on (or within rounding of) grid lines; 40% of the trainings happen on an object that was trained before with another hold-out share / level range / lambda.')
 REQUIRED = ["default_construction", "A_matrix_uniform", "C_matrix_uniform", "C_matrix_psd", "A_matrix_dimwise", "C_matrix_dimwise",
             "normal_equations_unregularised", "normal_equations_identity", "normal_equations_gradient", "normal_equations_adaptive",
             "opticom_sum_one", "opticom_sum_one_adaptive"]
